@@ -128,6 +128,71 @@ theorem write_roundtrip {γ : Type} (C : Compressor γ) (init : γ) (decode : By
   obtain ⟨w, h1, _, _, _, _, h6⟩ := write_concat C init ds
   exact ⟨w, h1, by rw [h6]; exact law ds⟩
 
+/-- BYTES AFTER THE END OF THE COMPRESSED STREAM DO NOT CHANGE THE STREAM. `raw` a valid file of payload `p`
+(codec law as hypothesis) followed by ANY bytes `t` (padding, the rest of a container, a plausible but wrong size
+field): at the raw-block level (`rawSource`: 8192-byte reads of `raw ++ t`, `zlib.decompressobj` with `eof` /
+`unused_data`) the file object answers EVERY in-scope operation sequence — in particular seeks relative to the end
+issued before the object has seen EOF — exactly as `io.BytesIO(p)`. The size the object uses is the number of
+decompressed bytes, never anything read from the file's last bytes. -/
+theorem trailing_bytes_same_stream {c : Codec} {raw p : Bytes} {out : Nat → Bytes} (hv : ValidFile c raw p out)
+    (t : Bytes) (ops : List Op) (pos' : Nat) (outs : List Out) {fuel : Nat}
+    (hf : rawBound (raw ++ t) + p.length + 2 ≤ fuel)
+    (hspec : Spec.run p 0 ops = some (pos', outs)) :
+    (runOps (rawSource c) fuel (openRaw (raw ++ t)) ops).2 = outs ∧
+    (runOps (rawSource c) fuel (openRaw (raw ++ t)) ops).1.pos = pos' := by
+  have law := trail_law hv t
+  have hp : (if (raw ++ t).length < raw.length then out (raw ++ t).length else p) = p := by
+    have : ¬ (raw ++ t).length < raw.length := by simp
+    simp only [this, if_false]
+  obtain ⟨cs, hI⟩ := openRaw_inv law
+  rw [hp] at hI
+  have hR := raw_regular law
+  rw [hp] at hR
+  obtain ⟨s', _, _, h1, _, h3⟩ := runOps_refines hR hf ops (openRaw (raw ++ t)) 0 cs pos' outs hI hspec
+  rw [h1]; exact ⟨rfl, h3⟩
+
+theorem Spec.run_snoc (p : Bytes) (op : Op) : ∀ (ops : List Op) (pos pos' pos'' : Nat) (outs : List Out) (o : Out),
+    Spec.run p pos ops = some (pos', outs) → Spec.applyOp p pos' op = some (pos'', o) →
+    Spec.run p pos (ops ++ [op]) = some (pos'', outs ++ [o]) := by
+  intro ops
+  induction ops with
+  | nil =>
+    intro pos pos' pos'' outs o h1 h2
+    simp only [Spec.run] at h1
+    cases h1
+    simp [Spec.run, h2]
+  | cons a ops ih =>
+    intro pos pos' pos'' outs o h1 h2
+    simp only [Spec.run] at h1
+    split at h1
+    · cases h1
+    · rename_i p1 o1 ha
+      split at h1
+      · cases h1
+      · rename_i p2 os hr
+        cases h1
+        have := ih p1 pos' pos'' os o hr h2
+        simp [Spec.run, ha, this]
+
+theorem Spec.seek_end (p : Bytes) (pos k : Nat) (hk : k ≤ p.length) :
+    Spec.applyOp p pos (.seek (-(k : Int)) 2) = some (p.length - k, .num (p.length - k)) := by
+  simp [Spec.applyOp]
+  omega
+
+/-- A SEEK FROM THE END LANDS AT `size - k` IN EVERY STATE OF THE OBJECT. After ANY in-scope operation sequence
+(nothing read yet, mid-stream, EOF seen, rewound, …) on ANY chunking — one chunk of megabytes included —
+`seek(-k, 2)` with `k ≤ size` returns `len(payload) - k`: the size is the full decompressed length whatever
+the history, and whatever the number of decompressed bytes one raw block expands to. -/
+theorem seek_end_in_every_state (chunks : List Bytes) (ops : List Op) (pos' : Nat) (outs : List Out) (k : Nat)
+    (hk : k ≤ chunks.flatten.length) {fuel : Nat} (hf : fuelFor chunks ≤ fuel)
+    (hspec : Spec.run chunks.flatten 0 ops = some (pos', outs)) :
+    (runOps chunkSource fuel (openChunks chunks) (ops ++ [.seek (-(k : Int)) 2])).2 =
+      outs ++ [.num (chunks.flatten.length - k)] ∧
+    (runOps chunkSource fuel (openChunks chunks) (ops ++ [.seek (-(k : Int)) 2])).1.pos =
+      chunks.flatten.length - k := by
+  have h2 := Spec.seek_end chunks.flatten pos' k hk
+  exact zfile_refines_stream_chunks chunks _ _ _ hf (Spec.run_snoc _ _ ops 0 pos' _ outs _ hspec h2)
+
 /-! Non-vacuity: a concrete chunking with an empty chunk, reads across chunk boundaries, a backward seek
 (rewind) and a seek past the end; the reference stream accepts the sequence and the hypotheses hold. -/
 def exChunks : List Bytes := [[97, 98, 10], [], [99, 100], [10, 101]]
